@@ -519,6 +519,7 @@ CheckGlobals(p, ctx, j, acc) ==
     ELSE LET g == p.globals[j] IN
          IF ~IsConst(g.e) THEN Fail("NonConstGlobal")
          ELSE IF \E h \in 1..(j - 1) : p.globals[h].x = g.x THEN Fail("DuplicateDef")
+         ELSE IF g.x \in DOMAIN p.fns THEN Fail("DuplicateDef")            \* a global named like a function of the module
          ELSE LET r == CheckStmt(acc.env, ctx, [k |-> "let", x |-> g.x, e |-> g.e, t |-> g.t]) IN
               IF r.c # "ok" THEN r
               ELSE CheckGlobals(p, ctx, j + 1, [acc EXCEPT !.env = r.env, !.pr = @ \o r.pr])
